@@ -8,6 +8,7 @@ import (
 	"fmt"
 	"reflect"
 	"strconv"
+	"strings"
 
 	ax "verif/harness/internal/c09t/a/x"
 	bx "verif/harness/internal/c09t/b/x"
@@ -176,6 +177,24 @@ func localL2() reflect.Type {
 	return reflect.TypeOf(L{})
 }
 
+// Pair: two different nested struct values in one parent (inlined by default, out of line after Pretouch with a small
+// MaxInlineDepth): inputs with a type mismatch in each of them
+type PairIn1 struct {
+	X int
+	Y string
+}
+type PairIn2 struct {
+	X int
+	Y string
+	Z *PairIn1
+}
+type Pair struct {
+	A PairIn1
+	B PairIn2
+	C int
+	L []PairIn1
+}
+
 // Entry of the catalogue.
 type Entry struct {
 	Name   string
@@ -205,6 +224,7 @@ var Catalogue = []Entry{
 	{"L2", localL2(), "clash"},
 	{"TP", reflect.TypeOf(TP{}), "pv"},
 	{"TQ", reflect.TypeOf(TQ{}), "pv"},
+	{"Pair", reflect.TypeOf(Pair{}), ""},
 }
 
 const GenBase = 1000 // type index >= GenBase: generated reflect.StructOf type number (index - GenBase)
@@ -489,6 +509,125 @@ func SameNameClash(roots []reflect.Type) map[reflect.Type]bool {
 			for _, t := range l {
 				out[t] = true
 			}
+		}
+	}
+	return out
+}
+
+// ---- malformed documents ---------------------------------------------------------------------------
+
+type scalarTok struct {
+	start, end int
+	kind       byte // 'n' number, 's' string, 'b' bool, 'z' null
+	depth      int
+}
+
+// scalarValues lists the scalar VALUE tokens (not object keys) of a valid JSON document.
+func scalarValues(doc []byte) []scalarTok {
+	var toks []scalarTok
+	var stack []byte
+	expectKey := false
+	i := 0
+	for i < len(doc) {
+		c := doc[i]
+		switch {
+		case c == '{':
+			stack = append(stack, '{')
+			expectKey = true
+			i++
+		case c == '[':
+			stack = append(stack, '[')
+			expectKey = false
+			i++
+		case c == '}' || c == ']':
+			if len(stack) > 0 {
+				stack = stack[:len(stack)-1]
+			}
+			expectKey = false
+			i++
+		case c == ',':
+			expectKey = len(stack) > 0 && stack[len(stack)-1] == '{'
+			i++
+		case c == ':':
+			expectKey = false
+			i++
+		case c == '"':
+			j := i + 1
+			for j < len(doc) && doc[j] != '"' {
+				if doc[j] == '\\' {
+					j++
+				}
+				j++
+			}
+			j++
+			if !expectKey {
+				toks = append(toks, scalarTok{i, j, 's', len(stack)})
+			}
+			i = j
+		case c == ' ' || c == '\n' || c == '\t' || c == '\r':
+			i++
+		default:
+			j := i
+			for j < len(doc) && !strings.ContainsRune(",}] \n\t\r", rune(doc[j])) {
+				j++
+			}
+			k := byte('n')
+			switch c {
+			case 't', 'f':
+				k = 'b'
+			case 'n':
+				k = 'z'
+			}
+			toks = append(toks, scalarTok{i, j, k, len(stack)})
+			i = j
+		}
+	}
+	return toks
+}
+
+// Damage turns a valid document into a malformed / mistyped one, deterministically from mut (> 0):
+//
+//	mut%3 == 0   two or three scalar values are replaced by values of another JSON kind (type mismatches, usually in
+//	             different nested structs)
+//	mut%3 == 1   the same, followed by syntax damage (truncation or a stray byte) after the last replaced value
+//	mut%3 == 2   syntax damage only
+func Damage(doc []byte, mut uint64) []byte {
+	r := rng.New(mut * 2654435761)
+	toks := scalarValues(doc)
+	out := append([]byte{}, doc...)
+	last := 0
+	if mut%3 != 2 && len(toks) > 0 {
+		n := 2 + r.Intn(2)
+		pick := map[int]bool{}
+		for i := 0; i < n; i++ {
+			pick[r.Intn(len(toks))] = true
+		}
+		var b []byte
+		pos := 0
+		for i, t := range toks {
+			if !pick[i] {
+				continue
+			}
+			b = append(b, doc[pos:t.start]...)
+			switch t.kind {
+			case 'n', 'b':
+				b = append(b, []byte(`"bad`+strconv.Itoa(i)+`"`)...)
+			case 's':
+				b = append(b, []byte(strconv.Itoa(1000+i))...)
+			default:
+				b = append(b, doc[t.start:t.end]...)
+			}
+			pos = t.end
+			last = len(b)
+		}
+		out = append(b, doc[pos:]...)
+	}
+	if mut%3 != 0 && len(out) > last+1 {
+		cut := last + 1 + r.Intn(len(out)-last-1)
+		if r.Bool() {
+			out = out[:cut]
+		} else {
+			out = append(append(append([]byte{}, out[:cut]...), '@'), out[cut:]...)
 		}
 	}
 	return out
